@@ -457,3 +457,77 @@ def gen_loop(seed: int, tier: str = "quick") -> Dict[str, Any]:
           "config": cfg, "loop": {"M": M, "L": L, "members": nmem, "tier": 2 if deep else 1}}
     repair_cycles(sc, rng)
     return sc
+
+
+# ---------------------------------------------------------------------------------
+# C16: a plant with async_requests connections to set_data/get_data agents
+def gen_async(seed: int, tier: str = "quick") -> Dict[str, Any]:
+    rng = random.Random(sub_seed(seed, "async"))
+    k = rng.choice([1, 1, 2, 2, 3])
+    a_type = rng.choice(["time-based", "time-based", "hybrid"])
+    A = {"sid": "A", "type": a_type, "group": 0, "n_ent": rng.choice([1, 2]), "meta_style": 0,
+         "transport": rng.choice(["gated", "gated", "stock", "remote", "cmd"]),
+         "beh": {"bseed": rng.randrange(1 << 30), "step_sizes": [rng.choice([1, 1, 2, 3, 4])]}}
+    if a_type == "hybrid":
+        A["beh"] = {"bseed": rng.randrange(1 << 30), "p_self": 1.0, "self_d": rng.choice([1, 2, 3]),
+                    "p_out": 0.6, "loop_len": 1}
+    sims = [A]
+    conns = []
+    for i in range(k):
+        calls = []
+        for j in range(rng.choice([1, 1, 2, 3])):
+            kind = rng.choice(["set_data", "set_data", "set_data", "get_data", "get_progress",
+                               "get_related_entities"])
+            if kind == "set_data":
+                calls.append({"kind": "set_data", "p": rng.choice([0.3, 0.7, 1.0]), "src_eid": "e0",
+                              "dst": f"A.e{rng.randrange(A['n_ent'])}", "attr": "m_in"})
+            elif kind == "get_data":
+                calls.append({"kind": "get_data", "p": rng.choice([0.5, 1.0]),
+                              "dst": f"A.e{rng.randrange(A['n_ent'])}", "attrs": ["p_out"]})
+            else:
+                calls.append({"kind": kind, "p": 0.5})
+        B = {"sid": f"B{i}", "type": "time-based", "group": 0, "n_ent": 1, "meta_style": 0,
+             "stub": "async", "transport": rng.choice(["gated", "gated", "stock", "remote", "cmd"]),
+             "beh": {"bseed": rng.randrange(1 << 30), "step_sizes": [rng.choice([1, 1, 2, 3, 4])],
+                     "async_calls": calls}}
+        sims.append(B)
+        conns.append({"src": 0, "se": rng.randrange(A["n_ent"]), "dst": len(sims) - 1, "de": 0,
+                      "pairs": [["p_out", "m_in"]], "shift": 0, "weak": False, "async": True})
+    illegal = None
+    if rng.random() < 0.35:
+        # a third simulator without async connection, or a missing flag
+        how = rng.choice(["third_sim", "other_agent", "no_flag"])
+        b = rng.randrange(1, len(sims))
+        if how == "third_sim":
+            C = {"sid": "C", "type": "time-based", "group": 0, "n_ent": 1, "meta_style": 0,
+                 "transport": rng.choice(["gated", "stock", "remote"]),
+                 "beh": {"bseed": rng.randrange(1 << 30), "step_sizes": [rng.choice([1, 2])]}}
+            sims.append(C)
+            conns.append({"src": len(sims) - 1, "se": 0, "dst": b, "de": 0, "pairs": [["p_out", "m_in"]]
+                          if False else [["p_out", "m_in"]], "shift": 0, "weak": False})
+            # (C feeds the agent over an ordinary connection, without async_requests)
+            # avoid carve-out 1: the agent's m_in already has A.e? as a source; C.e0 is another source
+            target = "C.e0"
+        elif how == "other_agent" and len(sims) > 2:
+            o = rng.choice([x for x in range(1, len(sims)) if x != b])
+            target = f"{sims[o]['sid']}.e0"
+        else:
+            how = "no_flag"
+            conns[b - 1]["async"] = False
+            target = f"A.e{rng.randrange(A['n_ent'])}"
+            # every request of this agent towards A is now illegal: keep only untargeted ones
+            sims[b]["beh"]["async_calls"] = [c for c in sims[b]["beh"]["async_calls"]
+                                             if c["kind"] in ("get_progress", "get_related_entities")]
+        kind = rng.choice(["set_data", "get_data"])
+        call = {"kind": kind, "p": 1.0 if rng.random() < 0.5 else 0.5, "illegal": how}
+        if kind == "set_data":
+            call.update({"src_eid": "e0", "dst": target, "attr": "m_in"})
+        else:
+            call.update({"dst": target, "attrs": ["p_out"]})
+        sims[b]["beh"]["async_calls"].append(call)
+        illegal = {"agent": sims[b]["sid"], "how": how, "target": target, "kind": kind}
+    cfg = {"cache": rng.random() < 0.5, "lazy": rng.random() < 0.5, "debug": False, "mli": 100,
+           "start_seed": rng.choice([None, rng.randrange(1 << 30)]), "connect_seed": None,
+           "order_seed": None, "iteration_cost": rng.choice([0.0, 1e-5])}
+    return {"groups": [None], "sims": sims, "conns": conns, "until": rng.choice([2, 3, 4, 5, 6, 8]),
+            "config": cfg, "illegal_async": illegal}
